@@ -56,8 +56,14 @@ def run(ctx: Ctx, rep: Report) -> None:
     reg_functions(ctx, rep)
     reg_rules(ctx, rep)
     flow(ctx, rep)
+    from .qasm_regs import declonce
     from .qasm_regs import regoff
     regoff(ctx, rep)
+    declonce(ctx, rep)
+    # formal parameters of a written `gate` body (shared with C06)
+    from .C06 import qasm_def_cursor
+    rep.floor('CURSOR', qasm_def_cursor(ctx, rep), 1,
+              'formal-parameter cursor of CircuitGate.get_qasm_gate_def')
 
 
 # ---------------------------------------------------------------------------
@@ -323,6 +329,23 @@ def reg_functions(ctx: Ctx, rep: Report) -> None:
     )
 
 
+def _expression_rules(g: str) -> dict[str, str]:
+    """Grammar rules reachable from `exp` (name -> right-hand side)."""
+    rules = dict(re.findall(r'^([a-z]\w*):(.*)$', g, re.M))
+    if 'exp' not in rules:
+        raise AnalysisError('grammar rule `exp` not found')
+    seen: set[str] = set()
+    todo = ['exp']
+    while todo:
+        r = todo.pop()
+        if r in seen or r not in rules:
+            continue
+        seen.add(r)
+        todo += re.findall(r'\b[a-z]\w*\b', re.sub(r'"[^"]*"|/[^/]*/', ' ',
+                                                   rules[r]))
+    return {r: rules[r] for r in seen}
+
+
 def reg_rules(ctx: Ctx, rep: Report) -> None:
     Rl = 'REG-rules'
     g = grammar_text(ctx)
@@ -353,6 +376,41 @@ def reg_rules(ctx: Ctx, rep: Report) -> None:
             f'expression rule `{rule}` is not translated by '
             'eval_exp_recurse (QASM `^` must become `**`, unary minus `-`)',
             key='operator',
+        )
+    # Parentheses.  The evaluator turns the parse tree back into Python text
+    # and eval()s it; lark drops anonymous literal tokens, so every
+    # expression rule whose right-hand side brackets a sub-expression with
+    # "(" ... ")" needs its own branch that writes the brackets back -
+    # otherwise `2*(3+1)` is evaluated as `2*3+1`.
+    exp_rules = _expression_rules(g)
+    bracketed = sorted(
+        r for r in exp_rules
+        if re.search(r'"\("\s*\w+\s*"\)"', exp_rules[r]))
+    rep.floor(Rl, len(bracketed), 2, 'bracketing expression rules')
+    for r in bracketed:
+        rep.count()
+        ok = False
+        for node in ast.walk(ev.node):
+            if isinstance(node, ast.If) and norm(
+                    node.test) == f"op.data == '{r}'":
+                txt = ''.join(
+                    c.value for s in node.body for j in ast.walk(s)
+                    if isinstance(j, ast.JoinedStr) for c in j.values
+                    if isinstance(c, ast.Constant) and isinstance(
+                        c.value, str))
+                txt += ''.join(
+                    c.value for s in node.body for c in ast.walk(s)
+                    if isinstance(c, ast.Constant) and isinstance(
+                        c.value, str))
+                ok = '(' in txt and ')' in txt
+        rep.check(
+            ok, Rl, f'evaluator:{r}:brackets', VIS, ev.lineno,
+            f'`{r}` writes its parentheses back',
+            f'grammar rule `{r}: {exp_rules[r].strip()}` brackets a '
+            'sub-expression, but eval_exp_recurse has no branch for it that '
+            'writes the parentheses back: the parser drops the literal '
+            'tokens and the flattened text loses the grouping '
+            '(`2*(3+1)` is evaluated as 7)', key='brackets',
         )
     # the U and CX built-ins resolve through the table
     for k in ('U', 'CX'):
